@@ -7,6 +7,8 @@ From TS Require Import Model.Str Model.Outcome Model.Unicode Model.Types Model.P
 From TS Require Import Spec.C10Spec.
 From TS Require Proofs.C10Lex Proofs.C10_TS Proofs.C10_TSFile Proofs.C10_KT Proofs.C10_SC Proofs.C10_GO Proofs.C10_GOFile
                 Proofs.C10_SW Proofs.C10_SWFile Proofs.C10_PY Proofs.C10_PYFile Proofs.C10_KW Proofs.C10.
+From TS Require Import Spec.C10PyKeys.
+From TS Require Proofs.C10_PYKeys.
 From TS Require Import Spec.C10TsGrammar.
 From TS Require Proofs.C10_TSGrammarTok Proofs.C10_TSGrammarParse Proofs.C10_TSGrammar Proofs.C10_TSGrammarFile.
 From TS Require Import Spec.C10KtGrammar.
@@ -1349,3 +1351,25 @@ Theorem C10_swift_unit_digit_fixed :
     good_C10_lex CSW Proofs.C10_SWUnitDigit.u_text_before = true /\ c10_sw_recognise Proofs.C10_SWUnitDigit.u_text_before = None.
 Proof. exact Proofs.C10_SWUnitDigit.swift_unit_digit_fixed. Qed.
 Print Assumptions C10_swift_unit_digit_fixed.
+
+(* ---------------------------------------------------------------- Python: tag / content keys that are keywords (open finding) *)
+(* The class of the open finding C10-python-key-keyword is the computable predicate Spec.C10PyKeys.known_C10_py_keys (an adjacently
+   tagged enum whose tag key is a Python keyword, or whose content key is one and some variant carries data); checks/c10.py evaluates
+   its extraction on the IR the real parser produced.  Witness: `#[serde(tag = "class", content = "in")] enum E { A(u8), B }` is in
+   dom_C10, in no class of known_C10, in this class, and the model - byte-equal to the real generator on every run of the check -
+   declares both keys verbatim as class attributes, although both are in the keyword list the back end promises to escape. *)
+Theorem C10_python_key_keyword_refuted :
+  exists cfg pd text, dom_C10 CPY pd = true /\ known_C10 CPY [] pd = [] /\ known_C10_py_keys pd = ["C10-python-key-keyword"%string] /\
+    py_generate uc_exec cfg pd = Ok text /\
+    contains_sub (lit "    class: Literal[ETypes.A] = ETypes.A") text = true /\ contains_sub (lit "    in: int") text = true /\
+    mem_str (lit "class") c10_python_keywords = true /\ mem_str (lit "in") c10_python_keywords = true.
+Proof. exact Proofs.C10_PYKeys.python_key_keyword_refuted. Qed.
+Print Assumptions C10_python_key_keyword_refuted.
+
+(* the boundaries of the class: the same enum with the keys `t` / `c` is outside; so is a keyword CONTENT key on an enum without a
+   data-carrying variant, which is never printed *)
+Theorem C10_python_key_keyword_class_boundaries :
+  known_C10_py_keys Proofs.C10_PYKeys.pk_plain = [] /\ known_C10_py_keys Proofs.C10_PYKeys.pk_unit_only = [] /\
+  (exists text, py_generate uc_exec Proofs.C10.w_py_cfg Proofs.C10_PYKeys.pk_unit_only = Ok text /\ contains_sub (lit "    in:") text = false).
+Proof. exact Proofs.C10_PYKeys.python_key_keyword_class_boundaries. Qed.
+Print Assumptions C10_python_key_keyword_class_boundaries.
